@@ -208,6 +208,30 @@ func jsonEligible(v Vector, items []Item) bool {
 			}
 		}
 	}
+	// JSON has one namespace for property names: whether a property is an argument or a block is
+	// decided by the schema, so a name used both ways (in the body or in the schema) has no JSON
+	// rendering that denotes the same items
+	attrNames, blockNames := map[string]bool{}, map[string]bool{}
+	for _, it := range items {
+		if it.K == "block" {
+			blockNames[it.Name] = true
+		} else {
+			attrNames[it.Name] = true
+		}
+	}
+	for _, p := range v.Parts {
+		for _, a := range p.Attrs {
+			attrNames[a.Name] = true
+		}
+		for _, b := range p.Blocks {
+			blockNames[b.Type] = true
+		}
+	}
+	for n := range attrNames {
+		if blockNames[n] {
+			return false
+		}
+	}
 	return true
 }
 
